@@ -72,6 +72,9 @@ async fn run_once(case: &SubCase, drop_at: Option<usize>, obs: &mut Obs) {
 			break;
 		}
 	}
+	if w.reconnects > 0 {
+		classes.insert("slot-reconnected");
+	}
 	if w.reused > 0 {
 		classes.insert("subscription-id-handed-out-again");
 	}
@@ -85,7 +88,7 @@ async fn run_once(case: &SubCase, drop_at: Option<usize>, obs: &mut Obs) {
 	// every subscribe call whose handler has decided got exactly one reply of the right kind (connection still open)
 	if w.failures.is_empty() && !w.stopped {
 		for (i, x) in w.insts.iter().enumerate() {
-			if !w.conns[x.conn].open {
+			if !w.alive(x) {
 				continue;
 			}
 			let replies: Vec<&serde_json::Value> = w.conns[x.conn].frames.iter().filter(|f| f["id"] == json!(x.req_id)).collect();
@@ -166,7 +169,7 @@ impl SubCheck for Bookkeeping {
 					steps.insert(0, H::Act { inst: 0, cmd: Cmd::Accept });
 					steps.insert(0, H::Subscribe { conn: 0, b: false, reuse: None });
 				}
-				SubCase { conns, cap, buf: 1024, string_ids, steps, sweep_drop, lowlevel, per_conn_middleware: if lowlevel { 0 } else { per_conn_middleware } }
+				SubCase { conns, cap, buf: 1024, string_ids, steps, sweep_drop, lowlevel, per_conn_middleware: if lowlevel { 0 } else { per_conn_middleware }, id_escapes: pre == 2 }
 			})
 			.boxed()
 	}
